@@ -818,7 +818,12 @@ func c09RunCase(t *testing.T, r *rand.Rand, fixed []func(h *c09Harness) *c09Labe
 			emptyOrBad := lab.Malformed || len(lab.Cmds) == 0
 			runFrame(lab.Raw)
 			if emptyOrBad {
-				h.waitClosed()
+				// the close of an empty / malformed frame is asynchronous; if it never comes the step is
+				// recorded without it and the frame rule of the oracle decides
+				select {
+				case <-h.tr.testTransport.closeCh:
+				case <-time.After(2 * time.Second):
+				}
 			}
 		case "ping":
 			client.sendPing()
